@@ -985,7 +985,13 @@ class Interp:
         if isinstance(f, types.MethodType) and self.repo.is_repo_function(f.__func__):
             return self.call(f.__func__, [f.__self__] + list(args), kwargs, node)
         if isinstance(f, types.FunctionType):
+            if getattr(f, "__module__", "") == "spec.p2p" and f.__name__ == "node_iteration":
+                from . import ghosts
+                return ghosts.node_iteration(self, args, kwargs, node)
             if self.repo.is_repo_function(f):
+                if f.__name__ == "recv_msg" and "node_inbox" in self.ctx.ghost:
+                    from . import ghosts
+                    return ghosts.recv_msg_from_inbox(self, f, args, kwargs, node)
                 return self.call_repo(f, args, kwargs, node)
             sp = self.spec_of(f)
             if sp is not None:
